@@ -388,6 +388,14 @@ def pipeline(facts):
                     and st.value.func.id in facts.funcs:
                 out.append((st.value.func.id, guard, st, [unparse(a) for a in st.value.args], st.targets[0]))
             elif isinstance(st, ast.If):
+                try:
+                    const = fold(st.test)
+                except NotConstant:
+                    const = None
+                if const is not None:
+                    # constant guard: the arm is either always or never part of the pipeline
+                    visit(st.body if const else st.orelse, guard)
+                    continue
                 visit(st.body, unparse(st.test) if guard == 'always' else guard + ' and ' + unparse(st.test))
                 if st.orelse:
                     visit(st.orelse, 'not ' + unparse(st.test))
